@@ -372,6 +372,7 @@ BATH_KINDS = {
     "CF-Underdamped": ("CF", "Underdamped", ("reorg", "freq", "gamma"), dict(T=300.0)),
     "CF-UnderdampedBrownian": ("CF", "UnderdampedBrownian", ("reorg", "freq", "gamma"), dict(T=300.0)),
     "CF-OverdampedBrownian": ("CF", "OverdampedBrownian", ("reorg",), dict(cortime=100.0, T=300.0, matsubara=1)),
+    "SD-CP29": ("SD", "CP29", ("reorg",), dict(T=300.0)),
     "CF-OverdampedBrownian-HighTemperature": ("CF", "OverdampedBrownian-HighTemperature", ("reorg",),
                                               dict(cortime=100.0, T=300.0)),
 }
@@ -383,17 +384,21 @@ BATH_KINDS = {
          thorough=[dict(kind=k, units=u) for k in BATH_KINDS for u in ("1/cm", "eV", "THz", "meV", "1/fs")],
          functions=["quantarhei/qm/corfunctions/spectraldensities.py:SpectralDensity.__init__",
                     "quantarhei/qm/corfunctions/spectraldensities.py:SpectralDensity._make_underdamped",
+                    "quantarhei/qm/corfunctions/spectraldensities.py:SpectralDensity._make_CP29_spectral_density",
+                    "quantarhei/qm/corfunctions/spectraldensities.py:SpectralDensity.measure_reorganization_energy",
                     "quantarhei/qm/corfunctions/correlationfunctions.py:CorrelationFunction.__init__",
                     F_M + ":Manager.convert_energy_2_internal_u"],
-         bound="analytic bath functions (spectral densities: overdamped / underdamped Brownian, 'Underdamped'; "
+         bound="analytic bath functions (spectral densities: overdamped / underdamped Brownian, 'Underdamped', 'CP29' "
+               "(reorganisation energy symbolic, a 4-point axis without the zero frequency, the numerically measured "
+               "normalisation an uninterpreted, congruent value); "
                "correlation functions: overdamped Brownian and its high-temperature form) whose energy parameters "
                "(reorganisation energy, oscillator frequency, damping; symbolic) are supplied inside an energy-units context "
                "as the converted numbers: data and reorganisation energy stored internally equal those of the "
                "same object built in internal units",
-         out="the B777 and CP29 types (CP29 normalises by a numerically measured reorganisation energy that "
-             "divides by the zero of the frequency axis - numpy's nan semantics, not modelled; its constructor is "
-             "handed the unconverted parameters exactly like 'Underdamped' was) and correlation functions obtained "
-             "by numerical transforms")
+         out="the B777 type, CP29 on axes containing the zero frequency (its measured normalisation divides 0 by 0 "
+             "there - numpy's nan semantics, not modelled), CP29's optional shape parameters, and correlation functions "
+             "obtained by numerical transforms (the time-domain 'B777' and 'CP29' types cannot be constructed at all in "
+             "this tree: they read self.energy_units, which is never set)")
 def bath_function_parameters(cx, kind, units):
     import quantarhei as qr
     from quantarhei.core.managers import Manager
@@ -401,6 +406,10 @@ def bath_function_parameters(cx, kind, units):
     m = Manager()
     with cx.concrete():
         axis = qr.FrequencyAxis(-3 * 0.0625, 6, 0.0625) if cls == "SD" else qr.TimeAxis(0.0, 3, 10.0)
+        if ftype == "CP29":
+            # two points below and two above the change point of the line shape (22 1/cm = 0.00414 rad/fs); no point
+            # at zero frequency, where the measured reorganisation energy divides 0 by 0
+            axis = qr.FrequencyAxis(-0.0045, 4, 0.003)
     vals = {"reorg": cx.real("reorg", 0.001, 0.01)}
     if "freq" in eparams:
         vals["freq"] = cx.real("freq", 0.05, 0.2)
